@@ -74,6 +74,7 @@ type Enc struct {
 	countHits  map[string]int
 	loopOrd    map[*ssa.BasicBlock]int
 	noPreserve map[string]bool // keys exempt from havoc_preserves during the havoc of one contracted call
+	autoInlined map[string]bool // uncontracted repository functions whose bodies were encoded in place
 }
 
 func (x *Enc) note(s string) { x.notes[s] = true }
@@ -108,7 +109,7 @@ type frame struct {
 
 func newEnc(eng *Engine, fn *ssa.Function, con *Contract, prop string) *Enc {
 	return &Enc{eng: eng, top: fn, con: con, keys: map[string]string{}, loopMods: map[string]map[string]bool{}, strs: map[string]Term{},
-		notes: map[string]bool{}, typeIDs: map[string]int{}, oblNames: map[string]int{}, prop: prop, assumed: map[string]bool{}, effectFree: map[string]bool{}, havocCalls: map[string]bool{}}
+		notes: map[string]bool{}, typeIDs: map[string]int{}, oblNames: map[string]int{}, prop: prop, assumed: map[string]bool{}, effectFree: map[string]bool{}, havocCalls: map[string]bool{}, autoInlined: map[string]bool{}}
 }
 
 // run encodes until the heap-key set and the loop modification sets are stable.
